@@ -9,7 +9,7 @@ import (
 // C08 — every packet-header decoder is total on arbitrary bytes.
 // Monitors armed by the engine: panic (every implicit runtime check is a query), progress
 // (a loop header in a library function visited more than N+2 times), allocation (a single
-// make/append larger than 64 KiB + 16 N elements).
+// make larger than 64 KiB + 16 N bytes, element count × element size).
 
 func c08input(nmaxQuick, nmaxThorough int) []byte {
 	nmax := nmaxQuick
